@@ -180,6 +180,16 @@ StepClauses(pre, ev, o, out, f, g2) ==
   \* (a refused call may leave a stray write in the handle's buffer that reaches the file only
   \* with the next flush: bytes that change at a later non-mutating step of the same context)
   \cup If(~mut /\ changed /\ pre.dirty, "C07:changed_after_failure")
+  \* --- what a read returns - with or without an open context, through whichever object - is what
+  \* the file holds at that moment (C11: "at every point the presence checks, the number of live
+  \* blocks, lookup by type ... report exactly the set of live blocks")
+  \cup If(o.op = "read" /\ ok /\ ev.rv # -3 /\ sound /\
+            (CASE ev.what = "has" -> (ev.rv = 1) # HasType(f, ev.t)
+               [] ev.what = "len" -> ev.rv # Cardinality(LiveSlots(f))
+               [] ev.what \in {"get_type", "item", "getter"} ->
+                    ~HasType(f, ev.t) \/ (ev.t \in Decodable /\ ev.rv # ContentOf(f, FirstOf(f, ev.t)))
+               [] OTHER -> FALSE), "C11:read_value")
+  \cup If(o.op = "read" /\ ~ok /\ sound /\ ev.what \in {"has", "len"}, "C11:read_value")
   \* --- bytes change only through a mutator in a write context
   \cup If(ok /\ changed /\ ~mut, "C08:reader_changed_bytes")
   \* the object Tdf.copy returns accepted a mutation although allow_write() was never called on it
